@@ -238,10 +238,10 @@ func (l *List) M__setitem__(key, value Object) (Object, error) {
 			if len(newItems) != slicelength {
 				return nil, ExceptionNewf(ValueError, "attempt to assign sequence of size %d to extended slice of size %d", len(newItems), slicelength)
 			}
-			j := 0
-			for i := start; i < stop; i += step {
+			// count by slicelength: the step may be negative, and
+			// i+step may overflow after the last element
+			for i, j := start, 0; j < slicelength; i, j = i+step, j+1 {
 				l.Items[i] = newItems[j]
-				j++
 			}
 		}
 	} else {
@@ -262,7 +262,7 @@ func (a *List) DelItem(i int) {
 // Removes items from a list
 func (a *List) M__delitem__(key Object) (Object, error) {
 	if slice, ok := key.(*Slice); ok {
-		start, stop, step, _, err := slice.GetIndices(len(a.Items))
+		start, stop, step, slicelength, err := slice.GetIndices(len(a.Items))
 		if err != nil {
 			return nil, err
 		}
@@ -273,10 +273,23 @@ func (a *List) M__delitem__(key Object) (Object, error) {
 			}
 			a.Items = append(a.Items[:start], a.Items[stop:]...)
 		} else {
-			j := 0
-			for i := start; i < stop; i += step {
-				a.DelItem(i - j)
-				j++
+			if slicelength > 0 {
+				if step < 0 {
+					// delete the same elements in ascending order
+					start += (slicelength - 1) * step
+					step = -step
+				}
+				kept := make([]Object, 0, len(a.Items)-slicelength)
+				next, deleted := start, 0
+				for i, item := range a.Items {
+					if deleted < slicelength && i == next {
+						deleted++
+						next += step
+						continue
+					}
+					kept = append(kept, item)
+				}
+				a.Items = kept
 			}
 		}
 	} else {
